@@ -192,8 +192,35 @@ def api_leg(ctx):
                                                      "how": "vncdotool.api.connect twice (reactor replaced by a recorder), then the second client's protocol against a server that asks for VNC authentication"})
 
 
+def cli_no_tty_leg(ctx):
+    """the command-line client without --password asks on the terminal; when there is no terminal to ask (getpass fails) there is
+    no password: no response goes out and the session is never reported as established, whatever the server says next"""
+    import getpass as gp
+    from unittest import mock
+    r = ctx.rng
+    for i in range(ctx.n(9, 60)):
+        ver = [b"RFB 003.003\n", b"RFB 003.007\n", b"RFB 003.008\n"][i % 3]
+        exc = [EOFError, OSError][i % 2]
+        chal = bytes(r.randrange(256) for _ in range(16))
+
+        def fail(prompt="", exc=exc):
+            raise exc("no terminal")
+        c, trace, zlog = new_client("cli")
+        with mock.patch.object(gp, "getpass", fail):
+            stream = ver + (struct.pack("!I", 2) if ver.endswith(b"003\n") else bytes([1, 2])) + chal
+            per = feed_impl(c, trace, [stream, struct.pack("!I", 0), server_init(4, 4, vclient.RGB32, b"x")])
+        flat = [t for q in per for t in q]
+        ctx.count("cli_no_terminal_sessions")
+        ctx.case(None, key=("cli-no-tty", i))
+        if any(t.startswith("w:") and len(t) == 2 + 32 for t in flat) or "made" in flat:
+            ctx.violate("no-password-proceeds", {"input": {"client": "VNCDoCLIClient without --password", "getpass": exc.__name__, "banner": ver.decode().strip(), "challenge": hx(chal)},
+                                                 "observed": "trace %r" % flat[-5:],
+                                                 "how": "command-line client on an in-memory transport with getpass failing; the server asks for VNC authentication, then accepts whatever it gets"})
+
+
 def run(ctx):
     api_leg(ctx)
+    cli_no_tty_leg(ctx)
     r = ctx.rng
     n = ctx.n(700, 20000)
     lines_all, meta = [], []
@@ -230,7 +257,7 @@ def run(ctx):
             if delivery == "glued":
                 chunks = [b"".join(chunks)]
             c, trace, zlog = new_client(kind, **opts)
-            c.factory.username = "user"
+            c.factory.username = "user" if (sum(len(x) for x in chunks) + len(chunks)) % 3 else None      # None: the user name is prompted for (ARD only)
             per = feed_impl(c, trace, chunks)
             flat = [t for q in per for t in q]
             rp = {"input": {"kind": kind, "password": pw, "delivery": delivery, "banner": list(p["ver"]), "offer": p["offer"], "scheme": p["scheme"],
